@@ -378,7 +378,7 @@ func validResume(h *hist.History, l *hist.Layout, exp []hist.ExpTx, start hist.P
 		if u.Kind.Delivers() {
 			break
 		}
-		if u.Kind == hist.Rotate {
+		if u.Kind == hist.Rotate || u.Kind == hist.Restart {
 			out = append(out, hist.Pos{File: u.NextFile, Off: 4})
 		}
 	}
